@@ -20,7 +20,7 @@ from cv.trace import validate_trace
 LEVEL = "model_checking"
 
 
-def build(rng, exports, system, nt, ntv):
+def build(rng, exports, system, nt, ntv, weak=False):
     from cij.util import c_
     from cij.core.calculator import Calculator, CijVolumeBaseInterface
     while True:
@@ -32,7 +32,12 @@ def build(rng, exports, system, nt, ntv):
             keep = set(ORTHO9) | {k for k in opt if rng.random() < 0.5}
             keys = [k for k in keys if k in keep]
         field = rng.uniform(0.7, 1.6, (nt, ntv))
-        comp = {k: base[k] * field * (1.0 + 0.01 * rng.normal(size=(nt, ntv))) for k in keys}
+        if weak:
+            # weakly coupled crystal: the shear-coupling components are a fraction of a GPa (but not zero)
+            iso = isotropic_plus(exports["cubic"], rng, 0.0)
+            pert = fillspec.invariant_vector(exports[system], rng, -0.6, 0.6)
+            base = {k: iso[k] + pert[k] for k in KEYS21}
+        comp = {k: base[k] * field * (1.0 + (0.0 if weak else 0.01) * rng.normal(size=(nt, ntv))) for k in keys}
         C = numpy.zeros((nt, ntv, 6, 6))
         for (i, j), a in comp.items():
             C[:, :, i - 1, j - 1] = a
@@ -66,13 +71,13 @@ def main(ctx, replay=None):
                        "(T,V) sample is one trace record; all non-trivial")
     ctx.assumptions += ["positive definiteness is decided by numpy eigvalsh in the harness and logged per sample",
                         "N_A, Rydberg, Bohr radius literals of cv/consts.py (rtol 1e-7)"]
-    nfields = 2 if ctx.tier == "quick" else 12
+    nfields = 3 if ctx.tier == "quick" else 12
     records = []
     G = consts.RY_BOHR3_TO_GPA
     for system in fillspec.SYSTEMS:
-        for _ in range(nfields):
+        for fi in range(nfields):
             nt, ntv = int(rng.integers(2, 5)), int(rng.integers(3, 7))
-            stub, vb, C, pd, keys, v = build(rng, exports, system, nt, ntv)
+            stub, vb, C, pd, keys, v = build(rng, exports, system, nt, ntv, weak=(fi == nfields - 1 and system not in ("cubic", "orthorhombic")))
             case = {"system": system, "keys": ["%d%d" % k for k in keys], "mass": stub.elast_data.cellmass}
             ctx.count(case)
             sig = {"system": system}
